@@ -495,6 +495,32 @@ func buildC02(tier string) *core.Plan {
 				}
 			}})
 	}
+	// the very first documents a parser sees already carry a selector: with nothing to select from,
+	// anything but $match: null is an error, not a new document
+	{
+		firsts := [][]c02Doc{
+			{{HasSel: true, Sel: map[string]any{"a": 1}, Body: map[string]any{"b": 2}}},
+			{{HasSel: true, Sel: map[string]any{}, Body: map[string]any{"b": 2}}},
+			{{HasSel: true, Sel: nil, Body: map[string]any{"a": 1}}},
+			{{Body: map[string]any{"a": 1}}, {HasSel: true, Sel: map[string]any{"zz": 1}, Body: map[string]any{"b": 2}}},
+			{{Body: map[string]any{"a": 1}}, {HasSel: true, Sel: map[string]any{"a": 1}, Body: map[string]any{"b": 2}}},
+			{{HasSel: true, Sel: map[string]any{"a": 1, "$invert": true}, Body: map[string]any{"b": 2}}},
+		}
+		nf1 := int64(len(firsts))
+		spaces = append(spaces, core.Space{Name: "first-documents-carry-a-selector", N: nf1 * nl,
+			Desc: func(i int64) any {
+				var ds []any
+				for _, d := range firsts[i/nl] {
+					ds = append(ds, d.data())
+				}
+				return map[string]any{"first_layer": ds, "layer2": l1[i%nl]}
+			},
+			Run: func(c *core.Ctx, i int64) {
+				c02History(c, "refStream-first-selector", []any{}, [][]c02Doc{firsts[i/nl]})
+				c02History(c, "refStream-first-selector", []any{}, [][]c02Doc{firsts[i/nl], l1[i%nl]})
+				c02FreeHistory(c, "refStream-first-selector", []any{}, append(append([]c02Doc{}, firsts[i/nl]...), l1[i%nl]...))
+			}})
+	}
 	// parentless patches that change the very keys later patterns look at: which documents a pattern
 	// selects is decided on the documents as they are NOW, every time (same pattern used repeatedly)
 	{
